@@ -115,6 +115,21 @@ theorem resolve_ok_cs (env : Env) (fuel : Nat) (root : NodeId) (base : String) (
   | succ fuel =>
     exact (resolveDocStep_docs env _ (resolveDoc_docs env fuel) _ _ _ _ _ hs (docsOk_init env)).2
 
+/-- … and every schema checkStructure registered for the root document has an info record in the `Resolved` -/
+theorem resolve_fresh_known (env : Env) (fuel : Nat) (root : NodeId) (base : String) (rs : Resolved)
+    (h : resolve env fuel root base = .ok rs) (fresh : List (NodeId × Info))
+    (hfresh : checkStructure env.st (env.st.size + 2) [(root, "")] [] = .ok fresh) :
+    ∀ id, id ∈ fresh.map (·.1) → (lookupNat id rs.infos).isSome = true := by
+  obtain ⟨s, b, d, hs, hd, _, hinfos⟩ := resolve_ok env fuel root base rs h
+  intro id hmem
+  cases fuel with
+  | zero => simp [resolveDoc] at hs
+  | succ fuel =>
+    obtain ⟨hdocs, _⟩ := resolveDocStep_docs env _ (resolveDoc_docs env fuel) _ _ _ _ _ hs (docsOk_init env)
+    have hknown : d.known.contains id = true := hdocs root d hd fresh hfresh id hmem
+    rw [hinfos, lookupNat_filter_key id (fun x => d.known.contains x) s.infos hknown]
+    exact resolveDocStep_table env _ (resolveDoc_keeps env fuel) _ _ _ _ _ hs fresh hfresh id hmem
+
 /-! ### the structural relation between a tree and its clone -/
 
 /-- `b` (in `st'`) is a copy of the subtree of `a` (in `st`), at some depth -/
@@ -145,13 +160,15 @@ include hS hre hd7 hl hnd hnil₁ hnil₂ hr
 theorem resolve_trees (fuel : Nat) (base : String) {rs₁ : Resolved} (h₁ : resolve env₁ fuel r₁ base = .ok rs₁)
     {f₂ : Nat} {fresh₂ : List (NodeId × Info)} (hcs₂ : checkStructure env₂.st f₂ [(r₂, "")] [] = .ok fresh₂) :
     ∃ (R : NodeId → NodeId → Prop) (rs₂ : Resolved), resolve env₂ fuel r₂ base = .ok rs₂ ∧ BiU R ∧ R r₁ r₂ ∧
-      (∀ a b, R a b → S a b) ∧
+      (∀ a b, R a b → S a b ∧ (lookupNat a rs₁.infos).isSome = true) ∧
       (∀ a b, R a b → OptRel (NodeRel R) (env₁.st.get? a) (env₂.st.get? b)) ∧ ResolvedRel R rs₁ rs₂ := by
   obtain ⟨fresh₁, hcs₁⟩ := resolve_ok_cs env₁ fuel r₁ base rs₁ h₁
   have hE := envRel_of_trees hS hre hd7 hl hnd hnil₁ hnil₂ hr hcs₁ hcs₂
   have hroot := pairR_root hS hr hcs₁ hcs₂
   obtain ⟨rs₂, h₂, hres⟩ := resolve_rel hE fuel hroot base rs₁ h₁
-  exact ⟨PairR S fresh₁ fresh₂, rs₂, h₂, hE.biu, hroot, fun _ _ h => h.1, pairR_nodeRel hS hr hcs₁ hcs₂, hres⟩
+  exact ⟨PairR S fresh₁ fresh₂, rs₂, h₂, hE.biu, hroot,
+    fun a b h => ⟨h.1, resolve_fresh_known env₁ fuel r₁ base rs₁ h₁ fresh₁ hcs₁ a (List.of_mem_zip h.2).1⟩,
+    pairR_nodeRel hS hr hcs₁ hcs₂, hres⟩
 
 /-- each resolved on its own: the same draft, the same Loader log, and every instance gets the same Spec result — with
     every amount of fuel, under `R`-related dynamic scopes — from the two roots -/
@@ -177,6 +194,54 @@ theorem trees_validate_same (fuel : Nat) (base : String) {rs₁ rs₂ : Resolved
       | none => rw [e1, e2] at this; exact this.elim
       | some n₂ => rw [e1, e2] at this; exact Iso.NodeSim.of_nodeRel this
   exact Iso.evalFuel_sim (envSim_of_resolved hres hn reMatch) vfuel .nil hroot j
+
+/-- … and for the evaluator itself (`Go.validateFuel`, through `C01.validate_refines_spec`).  `v₁`, `v₂`: the
+    environments `Validate` runs on — the drafts of the two `Resolved`; tables and stores that agree with the tables of
+    the `Resolved` and with the resolved stores on the schemas the `Resolved` know (elsewhere they are arbitrary: the
+    evaluation never gets there); the same regexp matcher —, well formed (`EnvWF`, `StoreWF`).  ONE Spec result governs the two runs: wherever the Spec decides, both return an error or
+    both succeed with annotations denoting the same evaluated sets. -/
+theorem trees_validate_iso (fuel : Nat) (base : String) {rs₁ rs₂ : Resolved}
+    (h₁ : resolve env₁ fuel r₁ base = .ok rs₁) (h₂ : resolve env₂ fuel r₂ base = .ok rs₂) (v₁ v₂ : VEnv)
+    (hi₁ : ∀ a, (lookupNat a rs₁.infos).isSome = true → v₁.info? a = lookupNat a rs₁.infos)
+    (hi₂ : ∀ b, (lookupNat b rs₂.infos).isSome = true → v₂.info? b = lookupNat b rs₂.infos)
+    (hd₁ : v₁.draft = rs₁.draft) (hd₂ : v₂.draft = rs₂.draft)
+    (hs₁ : ∀ a, (lookupNat a rs₁.infos).isSome = true → v₁.st.get? a = env₁.st.get? a)
+    (hs₂ : ∀ b, (lookupNat b rs₂.infos).isSome = true → v₂.st.get? b = env₂.st.get? b)
+    (hrm : v₁.reMatch = v₂.reMatch) (hwf₁ : Refine.EnvWF v₁) (hwf₂ : Refine.EnvWF v₂)
+    (hst₁ : Refine.StoreWF v₁.st) (hst₂ : Refine.StoreWF v₂.st) (vfuel : Nat) (j : Json) (hj : Json.WF j = true) :
+    Refine.Rel j (Spec.evalFuel (Refine.specEnvOf v₁) vfuel [] r₁ j) (validateFuel v₁ vfuel [] (GoVal.ofJson j) r₁) ∧
+      Refine.Rel j (Spec.evalFuel (Refine.specEnvOf v₁) vfuel [] r₁ j)
+        (validateFuel v₂ vfuel [] (GoVal.ofJson j) r₂) := by
+  obtain ⟨fresh₂, hcs₂⟩ := resolve_ok_cs env₂ fuel r₂ base rs₂ h₂
+  obtain ⟨R, rs₂', h₂', _, hroot, hknown, hnode, hres⟩ :=
+    resolve_trees hS hre hd7 hl hnd hnil₁ hnil₂ hr fuel base h₁ hcs₂
+  rw [h₂] at h₂'
+  cases h₂'
+  have hkn : ∀ a b, R a b → (lookupNat a rs₁.infos).isSome = true ∧ (lookupNat b rs₂.infos).isSome = true := by
+    intro a b hab
+    have hka := (hknown a b hab).2
+    exact ⟨hka, by rw [← OptRel.isSome_eq (hres.infos a b hab)]; exact hka⟩
+  have hinfo : ∀ x y, R x y → OptRel (InfoRel R) (v₁.info? x) (v₂.info? y) := by
+    intro x y hxy
+    rw [hi₁ x (hkn x y hxy).1, hi₂ y (hkn x y hxy).2]
+    exact hres.infos x y hxy
+  have hn : ∀ a b, R a b → OptRel (Iso.NodeSim R) (v₁.st.get? a) (v₂.st.get? b) := by
+    intro a b hab
+    rw [hs₁ a (hkn a b hab).1, hs₂ b (hkn a b hab).2]
+    have := hnode a b hab
+    cases e1 : env₁.st.get? a with
+    | none =>
+      cases e2 : env₂.st.get? b with
+      | none => trivial
+      | some _ => rw [e1, e2] at this; exact this.elim
+    | some n₁ =>
+      cases e2 : env₂.st.get? b with
+      | none => rw [e1, e2] at this; exact this.elim
+      | some n₂ => rw [e1, e2] at this; exact Iso.NodeSim.of_nodeRel this
+  have hE : Iso.EnvSim R (Refine.specEnvOf v₁) (Refine.specEnvOf v₂) :=
+    (tablesSim_of_infos hinfo).toEnvSim (by show v₁.draft = v₂.draft; rw [hd₁, hd₂, hres.draft]) hrm hn
+  exact Iso.validate_iso v₁ v₂ hwf₁ hwf₂ hst₁ hst₂ hE vfuel .nil (fun _ hx => nomatch hx) (fun _ hx => nomatch hx)
+    hroot j hj
 
 end
 
